@@ -254,10 +254,20 @@ def run(ctx):
         else:
             b = mk(cls, [POOL[f['kind']][0] for f in fields])
             b.__pane_set__.clear() if False else None
+            h_before = observe(hash, b)
             s = observe(setattr, b, name0, newval)
             if s.kind != 'value' or getattr(b, name0) != newval or name0 not in b.__pane_set__:
                 ctx.violation('frozen', 'main', i, {'options': opts, 'setattr': s.brief(), 'set_record': short(getattr(b, '__pane_set__', None))}, mech='non-frozen:assignment-not-recorded')
                 return
+            if pc == 'by-value' and eq:
+                # equal instances hash equal, also when one of them got there by assignment after having been hashed
+                twin = mk(cls, [newval] + [POOL[f['kind']][0] for f in fields[1:]])
+                ha, hb = observe(hash, b), observe(hash, twin)
+                ctx.count('hash_after_assignment_checks')
+                if ha.kind == 'value' and hb.kind == 'value' and (b == twin) is True and ha.val != hb.val:
+                    ctx.violation('hashing', 'main', i, {'options': opts, 'fields': flags, 'assigned': short(b), 'fresh_equal_instance': short(twin),
+                                                         'hash_before_assignment': h_before.brief()}, mech='hash:stale-after-assignment')
+                    return
         d = observe(delattr, a, name0)
         if d.kind != 'escape' or not hasattr(a, name0):
             ctx.violation('frozen', 'main', i, {'options': opts, 'delattr': d.brief()}, mech='delattr-allowed')
@@ -297,6 +307,14 @@ def run(ctx):
             if bad.kind != 'converr':
                 ctx.violation('replace', 'main', i, {**wit, 'ill_typed_change': bad.brief()}, mech='replace:does-not-revalidate')
                 return
+            if kind0 == 'int':
+                # a change equal to the current value but of another kind is still a change, and must be validated
+                same = observe(a.__replace__, **{name0: float(getattr(a, name0))})
+                ctx.count('replace_equal_other_kind_checks')
+                if same.kind != 'converr':
+                    ctx.violation('replace', 'main', i, {**wit, 'equal_value_of_other_kind': float(getattr(a, name0)), 'outcome': same.brief()},
+                                  mech='replace:equal-value-not-revalidated')
+                    return
         ctx.case((point, flags, 'copy-replace'))
         # ---- repr ---------------------------------------------------------------------------------------------------------
         for (c, a) in insts[:2]:
